@@ -83,13 +83,12 @@ func main() {
 					fmt.Fprintln(os.Stderr, "vh:", err)
 					os.Exit(2)
 				}
-				if sc.Replay == nil {
+				if !sc.ReplayAny(prop, c, json.RawMessage(raw)) {
 					fmt.Fprintln(os.Stderr, "vh: replay not supported for", prop)
 					os.Exit(2)
 				}
-				sc.Replay(c, json.RawMessage(raw))
 			} else {
-				sc.Run(c)
+				sc.RunAll(prop, c)
 			}
 		}()
 		b, _ := json.MarshalIndent(c.Res, "", " ")
